@@ -13,6 +13,7 @@ import Minicbor.Lemmas.DeriveIndef
 import Minicbor.Lemmas.DeriveReframe
 import Minicbor.Lemmas.DeriveReframePref
 import Minicbor.Lemmas.DeriveReframeVal
+import Minicbor.Lemmas.DeriveReframeSim
 import Minicbor.Lemmas.DeriveSpecValid
 
 namespace Minicbor.C09
@@ -614,10 +615,9 @@ example : deriveDecode C08.exStruct ([0xc9] ++ (indefBody .array
       [.some (.int 7), .text [0x61], .int 0, .bool true] ++ [0x01]))
     = .ok (.struct [.some (.int 7), .text [0x61], .int 0, .bool false]) [0x01] := by rfl
 
-/-- the full-strength statement.  With `reframes` in place of the two value-level hypotheses it is the
-    theorem `derive_decode_reframed_partial2` below; `reframes_sound` shows that `reframes` implies
-    them, the converse (every valid tree with the documented value and unchunked strings is in
-    `reframes`) is not proved. -/
+/-- the full-strength statement: proved at the end of this file (`derive_decode_reframed_full`), via
+    `derive_decode_reframed` (trees in the executable relation `reframes`), `reframes_sound` and
+    `reframes_complete` (`reframes` = "has the documented value and no chunked string"). -/
 def derive_decode_reframed_statement : Prop :=
   ∀ (t : FTy) (v : Derive.Val) (w : WItem) (rest : Bytes), accepted t = true → hasTy t v = true → noClash t v = true →
     w.Valid → value w = specTy t v → noChunks w = true →
@@ -783,8 +783,7 @@ termination_by structural vars => vars
 end
 
 /-- **C09, re-framed input** (`derive_decode_reframed_statement` restricted to the re-framings the
-    generated decoders accept: `reframes` keeps the enum wrapper definite — K8 — and strings
-    definite): for every accepted schema, every value and every valid wire tree `w` that re-frames
+    generated decoders accept: `reframes`: strings stay definite, everything else is free): for every accepted schema, every value and every valid wire tree `w` that re-frames
     the derived encoding — heads of any width, definite or indefinite-length struct / variant /
     `Vec` containers, at any nesting depth — decoding `encW w` followed by arbitrary bytes yields
     the value (skipped fields defaulted) and consumes exactly `encW w`. -/
@@ -1136,8 +1135,8 @@ theorem reframes_sound (t : FTy) (v : Derive.Val) (w : WItem) (ha : accepted t =
 
 /-- the theorem in the shape of `derive_decode_reframed_statement`, with the one extra (decidable)
     hypothesis `reframes t v w` — which, by `reframes_sound`, already implies the statement's
-    `value w = specTy t v` and `noChunks w`; what it leaves out is the indefinite-length enum
-    wrapper (K8, `derive_decode_reframed_statement_false`). -/
+    `value w = specTy t v` and `noChunks w`; and by `reframes_complete` is implied by them:
+    the extra hypothesis is redundant (`derive_decode_reframed_full`). -/
 theorem derive_decode_reframed_partial2 (t : FTy) (v : Derive.Val) (w : WItem) (rest : Bytes) (ha : accepted t = true)
     (hv : hasTy t v = true) (_hc : noClash t v = true) (hw : w.Valid) (_hval : value w = specTy t v)
     (_hnc : noChunks w = true) (hrf : reframes t v w = true) :
@@ -1145,7 +1144,7 @@ theorem derive_decode_reframed_partial2 (t : FTy) (v : Derive.Val) (w : WItem) (
   derive_decode_reframed t v w rest ha hv hw hrf
 
 /-- non-vacuity: every head widened, the struct body and the inner map indefinite, tags at widths
-    2 and 8; the K8 tree is *not* a re-framing, the same tree with a definite wrapper is. -/
+    2 and 8; the former K8 tree (indefinite enum wrapper) and the same tree with a definite wrapper. -/
 def exReframedStruct : WItem :=
   .tag .w2 9 (.arrayI [.text .w1 [0x61], .simple 22, .simple 22, .tag .w8 5 (.uint .w4 7)])
 def exReframedEnum : WItem :=
@@ -1184,5 +1183,186 @@ theorem null_clash_counterexample :
 example : noClash C08.exStruct (.struct [.some (.int 7), .text [0x61], .int 0, .bool true]) = true := by rfl
 example : deriveDecode C08.exStruct (deriveEncode C08.exStruct (.struct [.some (.int 7), .text [0x61], .int 0, .bool true]) ++ [1, 2])
     = .ok (.struct [.some (.int 7), .text [0x61], .int 0, .bool false]) [1, 2] := by rfl
+
+/-! ### completeness of `reframes`: the full statement
+
+`rf` only looks at the data-model value of a tree (Lemmas/DeriveReframeSim.lean): trees without
+chunked strings that have the same value are in the relation together.  The preferred tree of
+the documented value is in the relation (`pref_rf`), so EVERY valid tree with the documented value
+and unchunked strings is — and `derive_decode_reframed` becomes the statement itself. -/
+
+mutual
+theorem rf_sim : ∀ (t : FTy) (v : Derive.Val) (w1 w2 : WItem), accepted t = true → hasTy t v = true →
+    rf t v w1 = true → Sim w1 w2 → rf t v w2 = true
+  | .int k, v, w1, w2, _, _, h, hs => by
+    cases v <;> simp only [rf] at h ⊢ <;> first | exact sim_isIntW _ w1 w2 hs h | cases h
+  | .bool, v, w1, w2, _, _, h, hs => by
+    cases v <;> simp only [rf] at h ⊢ <;> first | exact sim_isBoolW _ w1 w2 hs h | cases h
+  | .text k, v, w1, w2, _, _, h, hs => by
+    cases v <;> simp only [rf] at h ⊢ <;> first | exact sim_isTextW _ w1 w2 hs h | cases h
+  | .blob k, v, w1, w2, _, _, h, hs => by
+    cases v <;> simp only [rf] at h ⊢ <;> first | exact sim_isBytesW _ w1 w2 hs h | cases h
+  | .option t, v, w1, w2, ha, hv, h, hs => by
+    simp only [accepted] at ha
+    cases v with
+    | none => simp only [rf] at h ⊢; exact sim_isNullW w1 w2 hs h
+    | some x =>
+      simp only [hasTy] at hv
+      simp only [rf, Bool.and_eq_true, Bool.not_eq_true'] at h ⊢
+      exact ⟨by rw [← sim_isNullW_iff w1 w2 hs]; exact h.1, rf_sim t x w1 w2 ha hv h.2 hs⟩
+    | _ => simp only [rf] at h; cases h
+  | .vec t, v, w1, w2, ha, hv, h, hs => by
+    simp only [accepted] at ha
+    cases v with
+    | list vs =>
+      simp [hasTy] at hv
+      simp only [rf] at h ⊢
+      cases hai : arrItems w1 with
+      | none => rw [hai] at h; simp at h
+      | some xs =>
+        rw [hai] at h
+        obtain ⟨ys, hys, hsa⟩ := sim_arrItems w1 w2 hs xs hai
+        rw [hys]
+        exact sim_all2 t vs xs ys h hsa (fun v' hv' x y hr hxy => rf_sim t v' x y ha (hv.1 v' hv') hr hxy)
+    | _ => simp only [rf] at h; cases h
+  | .struct a fs, v, w1, w2, ha, hv, h, hs => by
+    simp only [accepted, Bool.and_eq_true] at ha
+    cases v with
+    | struct vs =>
+      simp [hasTy] at hv
+      have hF := sim_fields fs vs ha.1.1.1.2 hv
+      simp only [rf] at h ⊢
+      cases htr : a.transparent
+      · rw [htr] at h
+        simp only [Bool.false_eq_true, if_false] at h ⊢
+        cases hu : untagW a.tag w1 with
+        | none => rw [hu] at h; simp at h
+        | some b1 =>
+          rw [hu] at h
+          simp only at h
+          obtain ⟨b2, hu2, hsb⟩ := sim_untagW a.tag w1 w2 b1 hs hu
+          rw [hu2]
+          simp only
+          cases hbc : bodyCells (a.enc.getD .array) fs vs b1 with
+          | none => rw [hbc] at h; simp at h
+          | some c1 =>
+            rw [hbc] at h
+            obtain ⟨c2, hc2, hcs⟩ := sim_bodyCells _ fs vs b1 b2 hsb hv (C08.nodupNat_nodup _ ha.1.1.2) c1 hbc
+            rw [hc2]
+            exact sim_rfFields fs vs c1 c2 hF hcs h
+      · rw [htr] at h
+        simp only [if_true] at h ⊢
+        -- transparent: the single field
+        match fs, vs, hF, h with
+        | [(fa, ft)], [fv], hF, h =>
+          simp only [rfOne] at h ⊢
+          cases hsk : fa.skip
+          · exact sim_rfWith fa.codec ft fv w1 w2 hs (fun hr => hF.1 hsk w1 w2 hr hs) h
+          · -- a transparent struct's field is not skipped (accepted)
+            exfalso
+            have := ha.2
+            simp [htr, hsk] at this
+        | [], _, _, h => simp [rfOne] at h
+        | [_], [], _, h => simp [rfOne] at h
+        | [_], _ :: _ :: _, _, h => simp [rfOne] at h
+        | _ :: _ :: _, _, _, h => simp [rfOne] at h
+    | _ => simp only [rf] at h; cases h
+  | .enum e vars, v, w1, w2, ha, hv, h, hs => by
+    simp only [accepted, Bool.and_eq_true] at ha
+    cases v with
+    | enum k vs =>
+      simp [hasTy] at hv
+      simp only [rf] at h ⊢
+      cases hu : untagW e.tag w1 with
+      | none => rw [hu] at h; simp at h
+      | some b1 =>
+        rw [hu] at h
+        simp only at h
+        obtain ⟨b2, hu2, hsb⟩ := sim_untagW e.tag w1 w2 b1 hs hu
+        rw [hu2]
+        exact sim_vars e vars k vs b1 b2 ha.1.1.2 hv h hsb
+    | _ => simp only [rf] at h; cases h
+termination_by structural t => t
+theorem sim_fields : ∀ (fs : Fields) (vs : List Derive.Val), acceptedFields fs = true → hasFields fs vs = true → FieldsSim fs vs
+  | [], vs, _, _ => by cases vs <;> exact trivial
+  | (a, t) :: fs, [], _, _ => trivial
+  | (a, t) :: fs, v :: vs, ha, hv => by
+    simp only [acceptedFields, Bool.and_eq_true, Bool.or_eq_true] at ha
+    simp only [hasFields, Bool.and_eq_true] at hv
+    refine ⟨?_, sim_fields fs vs ha.2 hv.2⟩
+    intro _ y1 y2 hr hxy
+    rcases ha.1.2 with hb | hacc
+    · -- a byte-string field: the relation is a leaf test
+      cases t with
+      | blob kd =>
+        cases v <;> simp only [rf] at hr ⊢ <;> first | exact sim_isBytesW _ y1 y2 hxy hr | cases hr
+      | option t' =>
+        cases t' <;> simp [fieldBlob] at hb
+        cases v with
+        | none => simp only [rf] at hr ⊢; exact sim_isNullW y1 y2 hxy hr
+        | some x =>
+          simp only [rf, Bool.and_eq_true, Bool.not_eq_true'] at hr ⊢
+          refine ⟨by rw [← sim_isNullW_iff y1 y2 hxy]; exact hr.1, ?_⟩
+          cases x <;> simp only [rf] at hr ⊢ <;> first | exact sim_isBytesW _ y1 y2 hxy hr.2 | exact absurd hr.2 (by simp)
+        | _ => simp only [rf] at hr; cases hr
+      | _ => simp [fieldBlob] at hb
+    · exact rf_sim t v y1 y2 hacc hv.1 hr hxy
+termination_by structural fs => fs
+theorem sim_vars (e : EAttr) : ∀ (vars : Variants) (k : Nat) (vs : List Derive.Val) (w1 w2 : WItem), acceptedVars e vars = true →
+    hasVars vars k vs = true → rfVars e vars k vs w1 = true → Sim w1 w2 → rfVars e vars k vs w2 = true
+  | [], _, _, _, _, _, _, h, _ => by simp [rfVars] at h
+  | (va, fs) :: rest, 0, vs, w1, w2, ha, hv, h, hs => by
+    simp only [acceptedVars, Bool.and_eq_true, decide_eq_true_eq] at ha
+    simp only [hasVars] at hv
+    obtain ⟨⟨⟨⟨⟨⟨_, _⟩, hacc⟩, hnd⟩, _⟩, _⟩, _⟩ := ha
+    have hF := sim_fields fs vs hacc hv
+    simp only [rfVars] at h ⊢
+    cases hix : e.indexOnly
+    · rw [hix] at h
+      simp only [Bool.false_eq_true, if_false] at h ⊢
+      obtain ⟨kx, bx, body, hpair, hkx, hub, hcond⟩ := pair_inv va _ fs vs w1 h
+      obtain ⟨kx', bx', hpair', hk', hb'⟩ := sim_pairItems w1 w2 kx bx hs hpair
+      obtain ⟨body', hub', hbs⟩ := sim_untagW va.tag bx bx' body hb' hub
+      simp only [hpair', sim_isUintW _ kx kx' hk' hkx, Bool.true_and, hub']
+      cases hsh : va.shape
+      · rw [hsh] at hcond
+        exact sim_isEmptyW _ body body' hbs hcond
+      all_goals
+        rw [hsh] at hcond
+        simp only at hcond ⊢
+        cases hbc : bodyCells (va.enc.getD (e.enc.getD .array)) fs vs body with
+        | none => rw [hbc] at hcond; simp at hcond
+        | some c1 =>
+          rw [hbc] at hcond
+          obtain ⟨c2, hc2, hcs⟩ := sim_bodyCells _ fs vs body body' hbs hv (C08.nodupNat_nodup _ hnd) c1 hbc
+          rw [hc2]
+          exact sim_rfFields fs vs c1 c2 hF hcs hcond
+    · rw [hix] at h
+      simp only [if_true] at h ⊢
+      exact sim_isUintW _ w1 w2 hs h
+  | (va, fs) :: rest, k + 1, vs, w1, w2, ha, hv, h, hs => by
+    simp only [acceptedVars, Bool.and_eq_true] at ha
+    simp only [hasVars] at hv
+    simp only [rfVars] at h ⊢
+    exact sim_vars e rest k vs w1 w2 ha.2 hv h hs
+termination_by structural vars => vars
+end
+
+/-- **`reframes` is complete for the documented format**: every tree with the documented value and
+    without chunked strings is a re-framing of the encoding. -/
+theorem reframes_complete (t : FTy) (v : Derive.Val) (w : WItem) (ha : accepted t = true) (hv : hasTy t v = true)
+    (hc : noClash t v = true) (hval : value w = specTy t v) (hnc : noChunks w = true) : reframes t v w = true := by
+  have hp := pref_rf t v ha hv hc
+  have hs := val_rf t v _ ha hv hp
+  exact rf_sim t v (prefTree (specTy t v)) w ha hv hp ⟨by rw [hs.1, hval], hs.2, hnc⟩
+
+/-- **C09, re-framed input, full statement**: for every accepted schema, every value (outside the
+    documented `Some(x) = null` exclusion) and EVERY valid wire tree that carries the documented
+    value without chunking a string — heads of any width, every container (struct / variant bodies,
+    `Vec`s, the enum wrapper) definite or indefinite, at any nesting depth — the derived decoder
+    returns the value (skipped fields defaulted) and consumes exactly the item. -/
+theorem derive_decode_reframed_full : derive_decode_reframed_statement := by
+  intro t v w rest ha hv hc hw hval hnc
+  exact derive_decode_reframed t v w rest ha hv hw (reframes_complete t v w ha hv hc hval hnc)
 
 end Minicbor.C09
